@@ -32,6 +32,8 @@ def _item_to_py(item):
                 out.append(list(c["l"]))
             elif "npi" in c:
                 out.append(np.int64(c["npi"]))
+            elif "np0" in c:
+                out.append(np.array(c["np0"]))  # a 0-d integer array: an integer for numpy's indexing
             else:
                 out.append(slice(*c["s"]))
         else:
@@ -54,7 +56,7 @@ class Prop:
             "event log (operations, outcomes, eval calls)")
     probes = ["op_scalar", "op_array", "op_view_create", "op_on_view", "op_on_packed_view", "expect_indexerror_order",
               "expect_indexerror_finite", "expect_runtimeerror_cycle", "masked_result", "precached_read",
-              "dep_nested_eval", "dep_slice_eval", "dep_view_eval", "nested_list_index", "none_valued_read", "kept_view_created", "op_on_kept_view", "npint_index", "cycle_len1", "cycle_len2", "cycle_len3", "view_of_view", "wrong_length", "bare_index", "oob_scalar_view", "op_on_oob_view", "eval_formats_series", "pop_cached", "pop_absent", "contains_true", "contains_false"]
+              "dep_nested_eval", "dep_slice_eval", "dep_view_eval", "nested_list_index", "none_valued_read", "kept_view_created", "op_on_kept_view", "npint_index", "cycle_len1", "cycle_len2", "cycle_len3", "view_of_view", "wrong_length", "bare_index", "zero_dim_array_index", "subclassed_roots", "oob_scalar_view", "op_on_oob_view", "eval_formats_series", "pop_cached", "pop_absent", "contains_true", "contains_false"]
     components_real = ["pymablock.series.BlockSeries (__getitem__, views, pop, __contains__, _check_finite, _check_number_perturbations)"]
     components_stub = ["element eval callbacks (simulator-owned table with dependency edges)", "series names (token_hex counter)"]
     assumptions = ["orders < 5, at most 4 finite and 2 infinite dimensions (5 in total), sizes 1-3",
@@ -119,6 +121,7 @@ class Prop:
             item = self._rand_item(r, shape, ninf, finite_only=make_view, flavour=flavour, fault=fault)
             if r.random() < 0.12:
                 item = [({"npi": c} if isinstance(c, int) and r.random() < 0.6 else c) for c in item]
+                item = [({"np0": c["npi"]} if isinstance(c, dict) and "npi" in c and r.random() < 0.25 else c) for c in item]
             ops.append(["idx", list(tgt), item, len(ops)])
             if len(item) == 1 and r.random() < 0.5:
                 ops[-1].append("bare")  # the single index component is given as it is, not wrapped in a tuple: S[[0, 2]], S[1:], S[3]
@@ -142,7 +145,7 @@ class Prop:
                 orders = [r.randrange(K) if r.random() < 0.7 else {"s": [0, r.randint(1, K), None]} for _ in range(roots[s]["ninf"])]
                 ops.insert(r.randint(0, len(ops)), ["kidx", s, fin, orders])
         # callbacks that log: every eval first formats its own series (repr / str / f-string)
-        return {"roots": roots, "edges": edges, "ops": ops, "talkative": r.random() < 0.25}
+        return {"roots": roots, "edges": edges, "ops": ops, "talkative": r.random() < 0.25, "subclassed": r.random() < 0.15}
 
     @staticmethod
     def _rank(roots, s, idx):
@@ -347,7 +350,17 @@ class Prop:
 
             return ev
 
+        class CallerSeries(BlockSeries):
+            """The caller's own subclass with its own constructor signature; views of it are ordinary series."""
+
+            def __init__(self, spec, evaluate, known):
+                super().__init__(eval=evaluate, data=known, shape=tuple(spec["shape"]), n_infinite=spec["ninf"], name=spec["name"])
+
         for s, root in enumerate(roots_spec):
+            if case.get("subclassed"):
+                bump("subclassed_roots")
+                real_roots.append(CallerSeries({**root, "name": f"R{s}"}, make_eval(s), dict(pre[s]) or None))
+                continue
             real_roots.append(BlockSeries(eval=make_eval(s), data=dict(pre[s]) or None, shape=tuple(root["shape"]),
                                           n_infinite=root["ninf"], name=f"R{s}"))
         targets = {("r", s): (real_roots[s], ids[s], len(roots_spec[s]["shape"]), roots_spec[s]["ninf"], "root", ()) for s in range(nroots)}
@@ -428,6 +441,8 @@ class Prop:
             item = _item_to_py(item_spec)
             if any(isinstance(c, np.integer) for c in item):
                 bump("npint_index")
+            if any(isinstance(c, np.ndarray) and c.ndim == 0 for c in item):
+                bump("zero_dim_array_index")
             if any(isinstance(c, list) and c and isinstance(c[0], list) for c in item):
                 bump("nested_list_index")
             calls_before = dict(calls)
